@@ -15,6 +15,10 @@ pub fn verif_dir() -> PathBuf {
         .unwrap_or_else(|_| PathBuf::from("/verif"))
 }
 
+/// Number of VIOLATION lines printed by this process (read by the panic hook: a harness failure
+/// after a verdict has been printed must not turn the exit status into a machinery error).
+pub static VIOLATIONS_PRINTED: std::sync::atomic::AtomicUsize = std::sync::atomic::AtomicUsize::new(0);
+
 #[derive(Clone, Debug)]
 pub struct Violation {
     /// Names the failing site (not the property): used to match known findings and to deduplicate.
@@ -132,6 +136,7 @@ impl Report {
         let text = serde_json::to_string_pretty(&body).unwrap();
         let path = dir.join(format!("{}-{:016x}.json", self.id, h64(&text)));
         let _ = std::fs::write(&path, text);
+        VIOLATIONS_PRINTED.fetch_add(1, std::sync::atomic::Ordering::SeqCst);
         println!(
             "VIOLATION property={} replay={}",
             self.id,
